@@ -1195,13 +1195,27 @@ func (g *gen) stmtTwinIf(depth int, results []*Ty) []*Stmt {
 				return nil
 			}
 			val.Typed = false
+			// assigning retypes the constant to the variable's type: a literal whose
+			// own 32/64-bit constant has the top bit set would be sign-extended
+			// into a wider signed variable (C03-const-signed-widening)
+			if tv.t.IsNum() && constCastRisky(tv.t, val.N) == "const_signed_widening" &&
+				!g.shape("const_signed_widening", 0) {
+				val.N = big.NewInt(int64(g.r.Intn(100)))
+			}
 			g.tag("twin_if_value_constant")
 		}
 		values = append(values, val)
 	}
 	avoid := map[string]bool{}
 	c0 := g.simpleCond(avoid)
-	withReturn := g.loops == 0 && g.pct(15)
+	// the early-return variant reads the targets right after the assignment: only
+	// with variable values (a constant would stay bound to the name there)
+	withReturn := g.loops == 0 && g.pct(25)
+	for _, val := range values {
+		if val.IsConst() {
+			withReturn = false
+		}
+	}
 	inner := func() []*Stmt {
 		c := g.simpleCond(avoid)
 		var body []*Stmt
@@ -1224,8 +1238,15 @@ func (g *gen) stmtTwinIf(depth int, results []*Ty) []*Stmt {
 		save := len(g.vars)
 		g.inBlock++
 		var out []*Stmt
+		innerFirst := g.pct(35)
+		if innerFirst {
+			out = append(out, inner()...)
+		}
 		// other variables assigned in this branch only
 		n := g.r.Intn(3)
+		if withReturn && innerFirst {
+			n = 0
+		}
 		for i := 0; i < n; i++ {
 			var s []*Stmt
 			if g.pct(75) {
@@ -1238,11 +1259,8 @@ func (g *gen) stmtTwinIf(depth int, results []*Ty) []*Stmt {
 				out = append(out, s...)
 			}
 		}
-		in := inner()
-		if g.pct(35) && len(out) > 0 {
-			out = append(in, out...) // the inner if first
-		} else {
-			out = append(out, in...)
+		if !innerFirst {
+			out = append(out, inner()...)
 		}
 		g.inBlock--
 		g.vars = g.vars[:save]
